@@ -18,6 +18,7 @@ FIRST_MISSED = {
     "C04-w7-1", "C05-w7-1", "C06-w7-1", "C06-w7-2", "C09-w7-1", "C11-w7-1", "C15-w7-2", "C20-w7-2",
     "C04-w8-2", "C05-w8-1", "C06-w8-2", "C09-w8-1", "C09-w8-2", "C10-w8-1", "C10-w8-2", "C11-w8-2", "C15-w8-1", "C15-w8-2", "C20-w8-1",
     "C05-w9-1", "C06-w9-1",
+    "C04-w10-1", "C05-w10-1", "C06-w10-1", "C08-w10-1", "C09-w10-1", "C10-w10-1", "C11-w10-1",
 }
 
 WHAT = {
@@ -178,6 +179,15 @@ WHAT = {
     "C11-w9-1": "keyed stable-sort installs a freshly allocated sorted slice into the target's header: views and aliases no longer see the sort",
     "C15-w9-1": "timer cap for contexts with a deadline but no Done channel written as a max: the sleep blocks until the deadline",
     "C20-w9-1": "root-relative fallback for locations that miss next to the loading file, never passed through link resolution",
+    "C04-w10-1": "evaluator nesting cap cached on first use: a limit assigned to Runtime.MaxEvalNesting after an evaluation is ignored",
+    "C05-w10-1": "load restores the environment's source location only when the load succeeded",
+    "C06-w10-1": "error data that is a package-qualified symbol is treated as self-evaluating and reaches the handler evaluated",
+    "C08-w10-1": "keyword references walk the lexical chain: a keyword spelled as a let variable or a formal is bound",
+    "C09-w10-1": "select 'list returns a fresh unsealed header over the input's storage when nothing is dropped",
+    "C10-w10-1": "package symbol listing sorted case-insensitively: names differing only in case come out in Go map order",
+    "C11-w10-1": "map reuses one argument list for all elements: &rest lists kept by the callback are overwritten",
+    "C15-w10-1": "sleeps under one millisecond take a plain time.Sleep before the context is consulted",
+    "C20-w10-1": "relative resolved root and location compared by prefix again when both are relative",
 }
 
 
